@@ -194,6 +194,19 @@ func TestC16_hooks(t *testing.T) {
 						m.apply(len(lc.Ops)-1, op)
 					}
 				}
+				if rapid.IntRange(0, 2).Draw(rt, "conversion") == 0 {
+					// make the 150-block conversion of collected swap fees do real work on several pairs at once: the
+					// collectors of all pairs hold a traded token that is not the distribution token, and the hooks
+					// run at a height divisible by 150
+					for j := range lc.Cfg.Pairs {
+						op := lOp{K: "feegift", Pair: j, Actor: rapid.IntRange(0, lNumLP-1).Draw(rt, fmt.Sprintf("cvgiver%d", j)),
+							A: rapid.SampledFrom([]string{"1000000", "7777777"}).Draw(rt, fmt.Sprintf("cvamt%d", j)),
+							B: lc.Cfg.Denoms[rapid.SampledFrom([]int{lc.Cfg.Pairs[j].Base, lc.Cfg.Pairs[j].Quote}).Draw(rt, fmt.Sprintf("cvdenom%d", j))]}
+						lc.Ops = append(lc.Ops, op)
+						m.apply(len(lc.Ops)-1, op)
+					}
+					cs.At150 = true
+				}
 				cs.Dt = rapid.SampledFrom([]int64{86400, 86401, 7 * 86400}).Draw(rt, "epochdt")
 				m.c16GaugeClasses(r)
 				c16HooksRun(rt, r, cs, m.c, nil)
